@@ -59,6 +59,7 @@ let () = iter_lines (fun line ->
   | ["idle"; h] ->
       let s = bytes_of_hex h in
       show_flat "idle" (run_flat (idle_tags (nat_of_int (List.length s + 1))) s)
+  | ["trimu"; h] -> Printf.printf "trimu %s\n" (hex_of_bytes (trim_u (bytes_of_hex h)))
   | ["utags"; spec; h] ->
       let s = bytes_of_hex h in
       let tbl = List.map (fun e -> match String.split_on_char '=' e with
